@@ -655,7 +655,7 @@ func (s *TreeShapeListener) EnterInplace_tuple(*parser.Inplace_tupleContext) {
 // ExitInplace_tuple is called when production inplace_tuple is exited.
 func (s *TreeShapeListener) ExitInplace_tuple(*parser.Inplace_tupleContext) {
 	s.currentTypePath.Pop()
-	s.typemap = s.currentApp().Types[s.currentTypePath.Get()].GetTuple().GetAttrDefs()
+	s.typemap = attributesForType(s.currentApp().Types[s.currentTypePath.Get()])
 }
 
 // EnterField is called when production field is entered.
